@@ -278,6 +278,11 @@ RAW_FRAMES = [b"", b"  ", b"{", b"[1,2]", b"5", b"null", b'"s"', b"\xff\xfe", b'
               b"nope", b"[" * 50 + b"]" * 50, b'{"command":"status","id":1e999}', b"true"]
 
 
+XRAISE_CLASSES = ["ValueError", "KeyError", "TypeError", "RuntimeError", "AttributeError", "StopIteration", "MessageError",
+                  "ConflictError", "OSError", "FileNotFoundError", "PermissionError", "SystemExit", "KeyboardInterrupt",
+                  "GeneratorExit", "BaseException", "Exception", "AlreadyExist", "ArgumentError"]
+
+
 def gen_op(rng, v, rid, profile):
     w = profile.get("ops", {})
     r = rng.random()
@@ -311,6 +316,14 @@ def gen_op(rng, v, rid, profile):
             return ["xkill", pid, rng.choice([9, 9, 15, 2, 1])]
         return ["fault", rng.randint(1, 12), pid, sim.wstat_sig(9) if rng.random() < 0.5 else sim.wstat_exit(rng.choice([0, 3]))]
     if kind == "raw":
+        if rng.random() < 0.3:
+            # a registered command whose execute() raises: every class has to end as one error reply
+            msg = {"command": rng.choice(["numwatchers", "list", "NumWatchers", "status"]), "id": rid, "properties": {}}
+            if rng.random() < 0.15:
+                msg["msg_type"] = "cast"
+            if rng.random() < 0.1:
+                del msg["id"]
+            return ["xreq", msg, rng.randint(0, 2), rng.choice(XRAISE_CLASSES)]
         return ["raw", list(rng.choice(RAW_FRAMES)), rng.randint(0, 2)]
     if kind == "sig":
         return ["sig", rng.choice(["quit", "reload", "reload"])]
